@@ -69,6 +69,9 @@ func raceSig(rep string) string {
 	return strings.Join(locs, "~")
 }
 
+// raceClause: the clause under which collectRaces files the reports of the running stream.
+var raceClause = "data-race"
+
 func collectRaces(o *Out, prop string, replay any) {
 	seen := map[string]bool{}
 	for _, rep := range raceReports(o.dir) {
@@ -80,7 +83,7 @@ func collectRaces(o *Out, prop string, replay any) {
 		if len(rep) > 3000 {
 			rep = rep[:3000]
 		}
-		o.Violate(Violation{Property: prop, Clause: "data-race", Sig: prop + "|data-race|" + sig, Detail: rep, Replay: replay})
+		o.Violate(Violation{Property: prop, Clause: raceClause, Sig: prop + "|" + raceClause + "|" + sig, Detail: rep, Replay: replay})
 	}
 	o.CountN("race-reports-distinct", len(seen))
 }
@@ -227,7 +230,18 @@ func runParRace(o *Out, _ *rand.Rand, thorough bool) {
 			wg.Wait()
 			o.Count("lazy-cache-first-use-probes")
 		}
-		sols, _, serr, span := solveAll(bt.model, opt)
+		var sols []nextroute.Solution
+		var serr error
+		var span any
+		if ci%4 == 1 {
+			// a caller that works on what it is handed WHILE the solve goes on: every delivered improvement is the caller's
+			// (a copy) — it un-plans a unit of it and copies it. (The FIRST delivered solution is left alone: it is the
+			// solver's own best-solution object, the listed finding E25.)
+			sols, serr, span = solveReworking(bt.model, opt, os.Getenv("VERIF_REWORK_FIRST") != "")
+			o.Count("caller-reworks-delivered-solutions")
+		} else {
+			sols, _, serr, span = solveAll(bt.model, opt)
+		}
 		if span != nil || serr != nil {
 			continue
 		}
@@ -242,4 +256,94 @@ func runParRace(o *Out, _ *rand.Rand, thorough bool) {
 		o.Sample(map[string]any{"features": c.Features, "solve": c.Solve, "delivered": len(sols)})
 	}
 	collectRaces(o, "C14", "see stream parrace, seed in evidence")
+}
+
+// solveReworking: the parallel solver with a consumer that un-plans a planned unit of every delivered solution (but the
+// first, unless first is set) right after receiving it, and copies it.
+func solveReworking(model nextroute.Model, opt nextroute.ParallelSolveOptions, first bool) (sols []nextroute.Solution, err error, pan any) {
+	defer func() {
+		if r := recover(); r != nil {
+			pan = r
+		}
+	}()
+	solver, e := nextroute.NewParallelSolver(model)
+	if e != nil {
+		return nil, e, nil
+	}
+	ctx, cancel := solveCtx(60 * time.Second)
+	defer cancel()
+	ch, e := solver.Solve(ctx, opt)
+	if e != nil {
+		return nil, e, nil
+	}
+	k := 0
+	var wg sync.WaitGroup
+	defer wg.Wait()
+	for s := range ch {
+		if s.Error != nil {
+			return sols, s.Error, nil
+		}
+		if k == 0 && first {
+			// keep working on the first solution while the runs start from it (until an improvement replaces it)
+			sol0 := s.Solution
+			wg.Add(1)
+			go func() {
+				defer wg.Done()
+				defer func() { _ = recover() }()
+				for i := 0; i < 400; i++ {
+					if pl := sol0.PlannedPlanUnits().SolutionPlanUnits(); len(pl) > 0 {
+						_, _ = pl[0].UnPlan()
+					}
+					if un := sol0.UnPlannedPlanUnits().SolutionPlanUnits(); len(un) > 0 {
+						if mv := sol0.BestMove(ctx, un[0]); mv.IsExecutable() {
+							_, _ = mv.Execute(ctx)
+						}
+					}
+				}
+			}()
+		} else if k > 0 {
+			if pl := s.Solution.PlannedPlanUnits().SolutionPlanUnits(); len(pl) > 0 {
+				_, _ = pl[0].UnPlan()
+			}
+			_ = s.Solution.Copy()
+		}
+		k++
+		sols = append(sols, s.Solution)
+	}
+	return sols, nil, nil
+}
+
+// parracefirst: the same reworking caller, but it also writes to the FIRST solution it is handed — which is the solver's
+// own best-solution object (E25): the runs that copy it at their start race with the caller. Listed; a stream of its own
+// so that its race reports carry their own clause.
+func init() {
+	streams["parracefirst"] = func(o *Out, _ *rand.Rand, thorough bool) {
+		raceClause = "data-race-caller-writes-first-delivered-solution"
+		o.Meta.Rule = "a case = generated instance solved by the parallel solver with a caller that un-plans a unit of EVERY delivered solution, the first included"
+		ncases := 8
+		if thorough {
+			ncases = 40
+		}
+		for ci := 0; ci < ncases; ci++ {
+			rng := o.CaseRng(ci)
+			c := genCase(rng, fullProfile(4+rng.Intn(8), 1+rng.Intn(3)))
+			c.Solve = &CSolve{Runs: 2 + rng.Intn(3), Starts: rng.Intn(4), Det: rng.Intn(2) == 0, Iters: 300 + rng.Intn(600)}
+			if !o.BeginCase(ci, c) {
+				continue
+			}
+			o.Meta.Cases++
+			bt, err, pan := buildCase(c)
+			if pan != nil || err != nil {
+				continue
+			}
+			opt := nextroute.ParallelSolveOptions{Iterations: c.Solve.Iters, Duration: 20 * time.Second, ParallelRuns: c.Solve.Runs,
+				StartSolutions: c.Solve.Starts, RunDeterministically: c.Solve.Det}
+			if _, serr, span := solveReworking(bt.model, opt, true); span != nil || serr != nil {
+				o.Count("parracefirst:solve-failed")
+				continue
+			}
+			o.Op(fmt.Sprintf("parracefirst %d", ci), "parracefirst")
+		}
+		collectRaces(o, "C14", "see stream parracefirst, seed in evidence")
+	}
 }
